@@ -86,6 +86,93 @@ type callLoc struct {
 	blk  *cfg.Block
 	idx  int
 	call *ast.CallExpr
+	// for a call that lives in an unexported helper of the package and is read at the helper's call site:
+	via  *ast.CallExpr // the call inside the helper (call is then the helper's call in the analysed function)
+	rank int           // order among the calls lifted from that helper
+	some bool          // the helper makes the call on some of its success paths only
+}
+
+// cfgCallsDeep is cfgCalls that also looks into the unexported functions and methods of the same package that the
+// analysed function calls (two levels): a matching call found there is recorded at the helper's call site, marked
+// `some` when the helper does not make it on every one of its own success paths. Moving part of a pipeline into a
+// helper, or inlining it back, therefore changes nothing; a helper that runs a stage only sometimes is seen as such.
+func cfgCallsDeep(p *Prog, pk *packages.Package, g *cfg.CFG, match func(q string, f *types.Func) bool, depth int) map[string][]callLoc {
+	info := pk.TypesInfo
+	out := cfgCalls(info, g, match)
+	if depth >= 2 {
+		return out
+	}
+	decl := map[*types.Func]*ast.FuncDecl{}
+	p.funcDecls(func(p2 *packages.Package, fd *ast.FuncDecl) {
+		if p2 == pk && fd.Body != nil {
+			if f, ok := p2.TypesInfo.Defs[fd.Name].(*types.Func); ok {
+				decl[f] = fd
+			}
+		}
+	})
+	for _, b := range g.Blocks {
+		for i, n := range b.Nodes {
+			ast.Inspect(n, func(m ast.Node) bool {
+				if _, ok := m.(*ast.FuncLit); ok {
+					return false
+				}
+				call, ok := m.(*ast.CallExpr)
+				if !ok {
+					return true
+				}
+				f := calleeFunc(info, call)
+				if f == nil || f.Exported() || f.Pkg() != pk.Types {
+					return true
+				}
+				hd := decl[f]
+				if hd == nil {
+					return true
+				}
+				q := f.Pkg().Name() + "." + f.Name()
+				if match(q, f) {
+					return true // a stage itself
+				}
+				hg := cfg.New(hd.Body, func(*ast.CallExpr) bool { return true })
+				inner := cfgCallsDeep(p, pk, hg, match, depth+1)
+				hsucc := successReturns(info, hg)
+				if hd.Type.Results == nil {
+					// no error result: every exit is a success
+					for _, hb := range hg.Blocks {
+						if hb.Live && len(hb.Succs) == 0 {
+							hsucc = append(hsucc, hb)
+						}
+					}
+				}
+				type item struct {
+					q string
+					l callLoc
+				}
+				var items []item
+				for iq, ls := range inner {
+					for _, l := range ls {
+						items = append(items, item{iq, l})
+					}
+				}
+				sort.Slice(items, func(a, b int) bool {
+					pa, pb := items[a].l.call.Pos(), items[b].l.call.Pos()
+					if pa != pb {
+						return pa < pb
+					}
+					return items[a].l.rank < items[b].l.rank
+				})
+				for k, it := range items {
+					some := it.l.some || !cuts(hg, inner[it.q], hsucc)
+					innerCall := it.l.call
+					if it.l.via != nil {
+						innerCall = it.l.via
+					}
+					out[it.q] = append(out[it.q], callLoc{blk: b, idx: i, call: call, via: innerCall, rank: k + 1, some: some})
+				}
+				return true
+			})
+		}
+	}
+	return out
 }
 
 func cfgCalls(info *types.Info, g *cfg.CFG, match func(q string, f *types.Func) bool) map[string][]callLoc {
@@ -112,7 +199,7 @@ func cfgCalls(info *types.Info, g *cfg.CFG, match func(q string, f *types.Func) 
 					q = "CheckLimits"
 				}
 				if match(q, f) {
-					out[q] = append(out[q], callLoc{b, i, call})
+					out[q] = append(out[q], callLoc{blk: b, idx: i, call: call})
 				}
 				return true
 			})
@@ -198,7 +285,7 @@ func rulePipeStages(c *Ctx) {
 				}
 				return q == "CheckLimits" || strings.HasPrefix(f.Name(), "Process") || f.Name() == "ComputeEpochAttesterData"
 			}
-			calls := cfgCalls(info, g, isStage)
+			calls := cfgCallsDeep(c.P, pk, g, isStage, 0)
 			succ := successReturns(info, g)
 			if len(succ) == 0 {
 				anchorFail("%s.%s has no success return", fork, kind)
@@ -231,7 +318,7 @@ func rulePipeStages(c *Ctx) {
 					c.bad(key, locs[1].call.Pos(), "%s is run %d times", w, len(locs))
 				case optional:
 					// conditional stage (bellatrix payload iff execution enabled): must be guarded by IsExecutionEnabled
-					guard := cfgCalls(info, g, func(q string, f *types.Func) bool { return f.Name() == "IsExecutionEnabled" })
+					guard := cfgCallsDeep(c.P, pk, g, func(q string, f *types.Func) bool { return f.Name() == "IsExecutionEnabled" }, 0)
 					var gl []callLoc
 					for _, l := range guard {
 						gl = append(gl, l...)
@@ -241,7 +328,7 @@ func rulePipeStages(c *Ctx) {
 					} else {
 						c.bad(key, locs[0].call.Pos(), "conditional stage %s is not governed by IsExecutionEnabled", w)
 					}
-				case !cuts(g, locs, succ):
+				case !cuts(g, locs, succ) || locs[0].some:
 					c.bad(key, locs[0].call.Pos(), "a path reaches a success return of %s without running %s", kind, w)
 				default:
 					c.ok(key, locs[0].call.Pos(), "on every success path, once")
@@ -290,7 +377,7 @@ func rulePipeStages(c *Ctx) {
 					// stage); a precedes b iff no path leads from b to a
 					before := false
 					if a[0].blk == b[0].blk {
-						before = a[0].idx < b[0].idx || (a[0].idx == b[0].idx && a[0].call.Pos() < b[0].call.Pos())
+						before = a[0].idx < b[0].idx || (a[0].idx == b[0].idx && (a[0].call.Pos() < b[0].call.Pos() || (a[0].call == b[0].call && a[0].rank < b[0].rank)))
 					} else {
 						before = !reachable(b[0].blk, nil)[a[0].blk] && reachable(a[0].blk, nil)[b[0].blk]
 					}
@@ -529,7 +616,7 @@ func ruleSlotsOrder(c *Ctx) {
 				neg = true
 			}
 			if ifs, ok := p.(*ast.IfStmt); ok {
-				if id, ok := ast.Unparen(ifs.Cond).(*ast.Ident); ok && id.Name == "validateResult" {
+				if id, ok := ast.Unparen(ifs.Cond).(*ast.Ident); ok && isBoolParam(fd, info, id) {
 					gov = true
 				}
 				if neg && !endsInErrorReturn(info, ifs.Body, nil, fd) && ast.Unparen(ifs.Cond) != nil && mentionsNode(ifs.Cond, vs[0].call) {
@@ -573,7 +660,9 @@ func ruleSlotsOrder(c *Ctx) {
 				sel, ok := call.Fun.(*ast.SelectorExpr)
 				return ok && sel.Sel.Name == "HashTreeRoot"
 			}
-			isDeclared := func(e ast.Expr) bool { return strings.Contains(types.ExprString(resolveLocal(info, e, defs, 3)), "StateRoot") }
+			isDeclared := func(e ast.Expr) bool {
+				return strings.Contains(types.ExprString(resolveLocal(info, e, defs, 3)), "StateRoot")
+			}
 			if !(isHTR(be.X) && isDeclared(be.Y)) && !(isHTR(be.Y) && isDeclared(be.X)) {
 				continue
 			}
@@ -583,7 +672,7 @@ func ruleSlotsOrder(c *Ctx) {
 			for p := parents[ast.Node(be)]; p != nil; p = parents[p] {
 				if ifs, ok := p.(*ast.IfStmt); ok && (mentionsNode(ifs.Cond, be) || mentionsNode(ifs.Body, be)) {
 					ast.Inspect(ifs.Cond, func(k ast.Node) bool {
-						if id, ok := k.(*ast.Ident); ok && id.Name == "validateResult" {
+						if id, ok := k.(*ast.Ident); ok && isBoolParam(fd, info, id) {
 							hasFlag = true
 						}
 						return true
@@ -672,7 +761,7 @@ func ruleEngineVerdict(c *Ctx) {
 					ast.Inspect(nd, func(m ast.Node) bool {
 						for _, cl := range calls {
 							if m == ast.Node(cl) {
-								locs = append(locs, callLoc{b, i, cl})
+								locs = append(locs, callLoc{blk: b, idx: i, call: cl})
 							}
 						}
 						return true
@@ -929,33 +1018,16 @@ func ruleLimitsFirst(c *Ctx) {
 		st := namedOf(info.TypeOf(fd.Recv.List[0].Type)).Underlying().(*types.Struct)
 		checked := map[string]bool{}
 		env := &intEnv{pk: pk}
-		ast.Inspect(fd.Body, func(n ast.Node) bool {
-			be, ok := n.(*ast.BinaryExpr)
-			if !ok || be.Op != token.GTR {
-				return true
-			}
-			// lhs: x (defined as uint64(len(b.F))) or uint64(len(b.F)) directly
-			var lenExpr ast.Expr = be.X
-			if id, ok := ast.Unparen(be.X).(*ast.Ident); ok {
-				// find definition in the enclosing if-init
-				ast.Inspect(fd.Body, func(m ast.Node) bool {
-					if as, ok := m.(*ast.AssignStmt); ok && len(as.Lhs) == 1 && len(as.Rhs) == 1 {
-						if lid, ok := as.Lhs[0].(*ast.Ident); ok && info.Defs[lid] == info.Uses[id] {
-							lenExpr = as.Rhs[0]
-						}
-					}
-					return true
-				})
-			}
+		for _, pr := range limitPairs(c.P, pk, fd, nil, nil, 0) {
+			// the length side: len(<receiver>.<path>)
 			var field string
 			var fieldExpr ast.Expr
-			ast.Inspect(lenExpr, func(m ast.Node) bool {
+			ast.Inspect(pr.count, func(m ast.Node) bool {
 				call, ok := m.(*ast.CallExpr)
 				if !ok {
 					return true
 				}
 				if id, ok := call.Fun.(*ast.Ident); ok && id.Name == "len" && len(call.Args) == 1 {
-					// root identifier must be the receiver
 					root := ast.Unparen(call.Args[0])
 					for {
 						if sel, ok := root.(*ast.SelectorExpr); ok {
@@ -972,29 +1044,28 @@ func ruleLimitsFirst(c *Ctx) {
 				return true
 			})
 			if field == "" {
-				return true
+				continue
 			}
 			checked[field] = true
 			key := fork + ".CheckLimits." + field
-			got, ok := se.intExpr(env, be.Y)
+			got, ok := se.intExpr(env, pr.limit)
 			if !ok {
-				c.unm(key, be.Pos(), "limit %s not normalisable", types.ExprString(be.Y))
-				return true
+				c.unm(key, pr.pos, "limit %s not normalisable", types.ExprString(pr.limit))
+				continue
 			}
 			sh := canon(se.typeShape(info.TypeOf(fieldExpr), "Deserialize"))
 			if sh.K != "list" && sh.K != "bytelist" && sh.K != "bitlist" {
-				c.unm(key, be.Pos(), "field %s is not a list (%s)", field, sh.K)
-				return true
+				c.unm(key, pr.pos, "field %s is not a list (%s)", field, sh.K)
+				continue
 			}
 			if polyEq(got, sh.N) {
-				c.ok(key, be.Pos(), "len(%s) > %s", field, sh.N.String())
+				c.ok(key, pr.pos, "len(%s) > %s", field, sh.N.String())
 			} else if field == "BlobKZGCommitments" && got.String() == "MAX_BLOBS_PER_BLOCK" {
-				c.ok(key, be.Pos(), "spec exception: commitments are bounded by MAX_BLOBS_PER_BLOCK in process_execution_payload while the SSZ limit is MAX_BLOB_COMMITMENTS_PER_BLOCK")
+				c.ok(key, pr.pos, "spec exception: commitments are bounded by MAX_BLOBS_PER_BLOCK in process_execution_payload while the SSZ limit is MAX_BLOB_COMMITMENTS_PER_BLOCK")
 			} else {
-				c.bad(key, be.Pos(), "%s is bounded by %s, its SSZ list limit is %s (a block the spec rejects passes, or one it accepts fails)", field, got.String(), sh.N.String())
+				c.bad(key, pr.pos, "%s is bounded by %s, its SSZ list limit is %s (a block the spec rejects passes, or one it accepts fails)", field, got.String(), sh.N.String())
 			}
-			return true
-		})
+		}
 		// coverage: every list-typed operation field
 		for i := 0; i < st.NumFields(); i++ {
 			f := st.Field(i)
@@ -1168,3 +1239,176 @@ func ruleForkSettings(c *Ctx) {
 }
 
 var _ = packages.NeedName
+
+// isBoolParam: id is a use of a bool-typed parameter of fd (PostSlotTransition's validateResult, whatever it is called).
+func isBoolParam(fd *ast.FuncDecl, info *types.Info, id *ast.Ident) bool {
+	o := info.Uses[id]
+	if o == nil || paramIndex(fd, info, o) < 0 {
+		return false
+	}
+	b, ok := o.Type().Underlying().(*types.Basic)
+	return ok && b.Kind() == types.Bool
+}
+
+// limitPairs: the (count, limit) pairs that a limits check refuses on `count > limit`, however the checks are laid out:
+// written one after the other, handed to an unexported helper `check(what, count, limit)`, or listed as rows of a
+// local table that a loop walks (possibly calling such a helper). Expressions are returned with locals, helper
+// parameters and row fields substituted, so that each pair reads in terms of the analysed function's receiver.
+type limitPair struct {
+	count, limit ast.Expr
+	pos          token.Pos
+}
+
+type selKey struct {
+	o types.Object
+	f string
+}
+
+func limitPairs(p *Prog, pk *packages.Package, fd *ast.FuncDecl, idEnv map[types.Object]ast.Expr, selEnv map[selKey]ast.Expr, depth int) []limitPair {
+	info := pk.TypesInfo
+	if fd.Body == nil || depth > 2 {
+		return nil
+	}
+	defs := singleDefs(info, fd.Body)
+	var subst func(e ast.Expr, d int) ast.Expr
+	subst = func(e ast.Expr, d int) ast.Expr {
+		if e == nil || d > 8 {
+			return e
+		}
+		switch x := e.(type) {
+		case *ast.ParenExpr:
+			return subst(x.X, d)
+		case *ast.Ident:
+			o := info.Uses[x]
+			if a, ok := idEnv[o]; ok {
+				return a
+			}
+			if df, ok := defs[o]; ok && df.pos == 0 && df.n == 1 && df.rhs != nil {
+				return subst(df.rhs, d+1)
+			}
+			return x
+		case *ast.SelectorExpr:
+			if id, ok := ast.Unparen(x.X).(*ast.Ident); ok {
+				if a, ok := selEnv[selKey{info.Uses[id], x.Sel.Name}]; ok {
+					return a
+				}
+			}
+			return x
+		case *ast.CallExpr:
+			n := &ast.CallExpr{Fun: x.Fun, Lparen: x.Lparen, Rparen: x.Rparen}
+			for _, a := range x.Args {
+				n.Args = append(n.Args, subst(a, d))
+			}
+			if tv, ok := info.Types[x]; ok {
+				info.Types[n] = tv
+			}
+			return n
+		}
+		return e
+	}
+	// tables: a local slice-of-struct literal and the loops that range over it
+	rowsOf := func(o types.Object) []*ast.CompositeLit {
+		df, ok := defs[o]
+		if !ok || df.rhs == nil {
+			return nil
+		}
+		cl, ok := ast.Unparen(df.rhs).(*ast.CompositeLit)
+		if !ok {
+			return nil
+		}
+		var rows []*ast.CompositeLit
+		for _, el := range cl.Elts {
+			if r, ok := el.(*ast.CompositeLit); ok {
+				rows = append(rows, r)
+			}
+		}
+		return rows
+	}
+	rowEnv := func(valObj types.Object, row *ast.CompositeLit, st *types.Struct) map[selKey]ast.Expr {
+		m := map[selKey]ast.Expr{}
+		for k, v := range selEnv {
+			m[k] = v
+		}
+		for i, el := range row.Elts {
+			if kv, ok := el.(*ast.KeyValueExpr); ok {
+				if id, ok := kv.Key.(*ast.Ident); ok {
+					m[selKey{valObj, id.Name}] = subst(kv.Value, 0)
+				}
+			} else if st != nil && i < st.NumFields() {
+				m[selKey{valObj, st.Field(i).Name()}] = subst(el, 0)
+			}
+		}
+		return m
+	}
+	var out []limitPair
+	var walk func(n ast.Node, sEnv map[selKey]ast.Expr)
+	walk = func(root ast.Node, sEnv map[selKey]ast.Expr) {
+		saved := selEnv
+		selEnv = sEnv
+		defer func() { selEnv = saved }()
+		ast.Inspect(root, func(n ast.Node) bool {
+			switch x := n.(type) {
+			case *ast.FuncLit:
+				return false
+			case *ast.RangeStmt:
+				// for _, l := range table { … }: the body once per row
+				if id, ok := ast.Unparen(x.X).(*ast.Ident); ok && x.Value != nil {
+					if vid, ok := x.Value.(*ast.Ident); ok {
+						if rows := rowsOf(info.Uses[id]); len(rows) > 0 {
+							var st *types.Struct
+							if sl, ok := info.TypeOf(x.X).Underlying().(*types.Slice); ok {
+								st, _ = sl.Elem().Underlying().(*types.Struct)
+							}
+							for _, r := range rows {
+								walk(x.Body, rowEnv(info.Defs[vid], r, st))
+							}
+							return false
+						}
+					}
+				}
+			case *ast.BinaryExpr:
+				var cnt, lim ast.Expr
+				switch x.Op {
+				case token.GTR:
+					cnt, lim = x.X, x.Y
+				case token.LSS:
+					cnt, lim = x.Y, x.X
+				default:
+					return true
+				}
+				out = append(out, limitPair{subst(cnt, 0), subst(lim, 0), x.Pos()})
+			case *ast.CallExpr:
+				f := calleeFunc(info, x)
+				if f == nil || f.Exported() || f.Pkg() != pk.Types {
+					return true
+				}
+				var hd *ast.FuncDecl
+				p.funcDecls(func(p2 *packages.Package, f2 *ast.FuncDecl) {
+					if p2 == pk && p2.TypesInfo.Defs[f2.Name] == f {
+						hd = f2
+					}
+				})
+				if hd == nil || hd == fd {
+					return true
+				}
+				henv := map[types.Object]ast.Expr{}
+				i := 0
+				for _, fl := range hd.Type.Params.List {
+					for _, nm := range fl.Names {
+						if i < len(x.Args) {
+							henv[info.Defs[nm]] = subst(x.Args[i], 0)
+						}
+						i++
+					}
+				}
+				for _, hp := range limitPairs(p, pk, hd, henv, nil, depth+1) {
+					hp.pos = x.Pos()
+					out = append(out, hp)
+				}
+			}
+			return true
+		})
+	}
+	walk(fd.Body, selEnv)
+	return out
+}
